@@ -112,7 +112,6 @@ func H_C08_postpatch() {
 	flagSeed = seedFlag{bytes: []byte("12345678")}
 	lpkg := &listedPackage{ImportPath: "main"}
 	obfVar := hashWithPackage(lpkg, "_originalNamePairs")
-	oneLengthClass(obfVar)
 	file := []byte("package main\nvar " + obfVar + " = []string{}\n")
 	out := reflectMainPostPatch(file, lpkg, pkgCache{ReflectObjectNames: map[string]string{k1: v1, k2: v2}})
 	symx.Reach("patched")
